@@ -49,6 +49,7 @@ pub(crate) struct H {
     pub log: Vec<String>,
     pub version: ProtocolVersion,
     pub t0: Instant,
+    pub payload_len: usize,
 }
 
 impl H {
@@ -66,7 +67,7 @@ impl H {
         };
         let version = convert_protocol_mode_to_protocol_version(cfg.mode);
         H { ps: ProtocolState::new(config), cfg, now, results: Arc::new(Mutex::new(Vec::new())), submitted: Vec::new(), events: VecDeque::new(),
-            sent: Vec::new(), sent_this_connection: Vec::new(), out_decoder: Decoder::new(), next_tag: 1, log: Vec::new(), version, t0: now }
+            sent: Vec::new(), sent_this_connection: Vec::new(), out_decoder: Decoder::new(), next_tag: 1, log: Vec::new(), version, t0: now, payload_len: 3 }
     }
 
     pub fn advance(&mut self, ms: u64) { self.now += Duration::from_millis(ms); }
@@ -124,6 +125,8 @@ impl H {
 
     pub fn submit(&mut self, kind: Kind) -> u64 { let t = self.cfg.ack_timeout; self.submit_with_timeout(kind, t) }
 
+    pub fn submit_sized(&mut self, kind: Kind, payload: usize) -> u64 { self.payload_len = payload; let t = self.cfg.ack_timeout; let r = self.submit_with_timeout(kind, t); self.payload_len = 3; r }
+
     pub fn submit_with_timeout(&mut self, kind: Kind, ack_timeout: Option<Duration>) -> u64 {
         let tag = self.next_tag; self.next_tag += 1;
         self.log.push(format!("submit {:?} #{}", kind, tag));
@@ -133,7 +136,7 @@ impl H {
         let event = match kind {
             Kind::Pub0 | Kind::Pub1 | Kind::Pub2 => {
                 let qos = match kind { Kind::Pub0 => QualityOfService::AtMostOnce, Kind::Pub1 => QualityOfService::AtLeastOnce, _ => QualityOfService::ExactlyOnce };
-                let packet = Box::new(MqttPacket::Publish(PublishPacket { topic, qos, payload: Some(vec![tag as u8; 3]), ..Default::default() }));
+                let packet = Box::new(MqttPacket::Publish(PublishPacket { topic, qos, payload: Some(vec![tag as u8; self.payload_len]), ..Default::default() }));
                 let mut options = PublishOptions::builder();
                 if let Some(t) = ack_timeout { options = options.with_ack_timeout(t); }
                 let handler: ResponseHandler<PublishResult> = Box::new(move |r: PublishResult| {
